@@ -394,10 +394,13 @@ func init() {
 					}
 					return false
 				}
+				// every pair with one member taken from a representative set (all bytes x
+				// {digit, letter of each case, first non hexadecimal letters, other}), both orders
+				reps := []int64{'0', '9', 'a', 'f', 'g', 'A', 'F', 'G', '/', ':', '@', '`', 0, 255}
 				for a := int64(0); a < 256; a++ {
-					for d := int64(0); d < 256; d++ {
+					for _, d := range reps {
 						for _, q := range []bool{true, false} {
-							if pathCls(q, c, &T, a, d).kept != (in(h1, a) && in(h2, d)) {
+							if pathCls(q, c, &T, a, d).kept != (in(h1, a) && in(h2, d)) || pathCls(q, c, &T, d, a).kept != (in(h1, d) && in(h2, a)) {
 								product = false
 							}
 						}
@@ -405,7 +408,7 @@ func init() {
 				}
 			}
 			fmt.Fprintf(b, "Definition gen_pathEscape_look1 : list N := %s.\nDefinition gen_pathEscape_look2 : list N := %s.\n", coqNList(h1), coqNList(h2))
-			fmt.Fprintf(b, "(* evaluated for all 256 x 256 following byte pairs and both values of quoted: kept iff first in look1 and second in look2 *)\nDefinition gen_pathEscape_look_is_product : bool := %s.\n", coqBool(product))
+			fmt.Fprintf(b, "(* evaluated for every pair of following bytes with one member in a representative set, both values of quoted: kept iff first in look1 and second in look2 *)\nDefinition gen_pathEscape_look_is_product : bool := %s.\n", coqBool(product))
 			// the look-ahead distance: smallest len(s)-i for which the condition `i+K < len(s)` holds
 			fd := mustFunc(rt, "pathEscape")
 			var cond ast.Expr
